@@ -7,7 +7,11 @@ from .. import mir
 from ..common import Instance, norm_id, load_table
 from . import carry, c15
 
+import re
+
 FLAG_TYS = ("subtle::Choice", "const_choice::ConstChoice")
+# callees whose trailing Choice is a *validity / overflow* flag (not a sign, a parity or a comparison result)
+FLAG_CALLEES = re.compile(r"^(inv_mod2k|inv_odd_mod|inv_mod|overflowing_\w+)(_vartime)?$")
 
 
 def _origin(view, prov, op):
@@ -32,7 +36,7 @@ def run(facts, report, config, scope, prefix="c10.flag", counter="validity_flag_
             if view.blocks[bi]["cleanup"] or t["dst"][1] or t["t"] is None:
                 continue
             seg = mir.last_seg(mir.callee_decl(t)) or ""
-            if carry.CARRY.match(seg):
+            if carry.CARRY.match(seg) or not FLAG_CALLEES.match(seg):
                 continue
             ty = view.locals[t["dst"][0]]
             if not ty.startswith("("):
